@@ -51,7 +51,8 @@ type UOpts struct {
 	NIndexes  int
 	NArtifact int
 	BareMT    bool // some OCI manifests and indexes omit the optional mediaType field of the body
-	MTSkew    bool // some index entries list a child under another (docker <-> OCI) media type than it was pushed with
+	MTSkew    bool // some index entries list a child under another (docker <-> OCI) media type than it was pushed with, or with another size
+	OddAT     bool // artifact types that contain + & = % #
 	Tags      []string
 	Tag       string // unique content marker
 }
@@ -82,6 +83,7 @@ func MkImage(name, alg, mt string, cfg *Blob, cfgMT string, layers []Descriptori
 type MkOpt struct {
 	Bare   bool              // leave the mediaType field out of the body
 	ListAs map[string]string // index: child digest -> media type to list it under
+	Resize map[string]int    // index: child digest -> bytes to add to the size it is listed with
 }
 
 // MkImageX is MkImage with variations.
@@ -138,7 +140,7 @@ func MkIndexX(name, alg, mt string, children []*Man, subject, at string, ann map
 			}
 			listed[c.D] = as
 		}
-		ms = append(ms, descJSON(cmt, c.D, len(c.Raw)))
+		ms = append(ms, descJSON(cmt, c.D, len(c.Raw)+o.Resize[c.D]))
 		refs = append(refs, c.D)
 	}
 	m := map[string]any{"schemaVersion": 2, "mediaType": mt, "manifests": ms}
@@ -248,6 +250,13 @@ func GenUniverse(r *rand.Rand, o UOpts) *Universe {
 					}
 					mo.ListAs[c.D] = swap[c.MT]
 				}
+				if r.Intn(3) == 0 {
+					// ... or with a size that is not the child's (the registry only checks that the child exists)
+					if mo.Resize == nil {
+						mo.Resize = map[string]int{}
+					}
+					mo.Resize[c.D] = 1 + r.Intn(9)
+				}
 			}
 		}
 		m := MkIndexX(fmt.Sprintf("x%d", i), pickAlg(r, o.Algs), mt, ch, "", "", map[string]string{"name": fmt.Sprintf("x%d", i), "u": o.Tag}, mo)
@@ -260,6 +269,10 @@ func GenUniverse(r *rand.Rand, o UOpts) *Universe {
 		subjPool = append(subjPool, m.D)
 	}
 	ats := []string{"application/x.a", "application/x.b", ""}
+	if o.OddAT {
+		// artifact types with characters that have a meaning of their own in a query string
+		ats = []string{"application/vnd.example.sbom.v1+json", "application/x.a&b=%63#d", ""}
+	}
 	var arts []*Man
 	for i := 0; i < o.NArtifact; i++ {
 		name := fmt.Sprintf("a%d", i)
